@@ -106,6 +106,8 @@ func H08d() {
 	sB := vGenStream(vKindsParam(), true)
 	sA := vGenStream([]int{vKindActivity, vKindRecord, vKindActivity}, false)
 	vResetAccumulators()
+	// some history before B is ever seen
+	_, _ = Decode(bytes.NewReader(sA.data))
 	b0, e0 := Decode(bytes.NewReader(sB.data))
 	a, ea := Decode(bytes.NewReader(sA.data))
 	if ea == nil {
@@ -116,6 +118,18 @@ func H08d() {
 	_, _ = DecodeChained(bytes.NewReader(sA.data))
 	b1, e1 := Decode(bytes.NewReader(sB.data))
 	vAssert(e0 == nil && e1 == nil && b0 != nil && b1 != nil, "C08.sequence.decodes")
+	// and the value itself is the one a fresh process gives (C12's rule):
+	// whatever was decoded before, the activity's local timestamp is the
+	// timestamp's instant in a zone whose offset is local - UTC
+	if b1 != nil && sB.nActivities > 0 {
+		act, _ := b1.Activity()
+		ok := act != nil && act.Activity != nil
+		if ok {
+			_, off := act.Activity.LocalTimestamp.Zone()
+			ok = int64(off) == int64(sB.actLocal)-int64(sB.actTs) && act.Activity.LocalTimestamp.Equal(decodeDateTime(sB.actTs))
+		}
+		vAssert(ok, "C08.sequence.local-time-as-in-a-fresh-process")
+	}
 	if b0 != nil && b1 != nil {
 		vSameContent(b0, b1, 3, "C08.sequence.decode-independent-of-history")
 		vAssert(b0.Header == b1.Header && b0.CRC == b1.CRC, "C08.sequence.decode-independent-of-history")
